@@ -5,7 +5,7 @@ from props.common_pat import run_cases, blob_tagger, finding_reproduces, replay 
 CONSTS = ("IGNORE_INST_ADDR", "SKIP_TO_END_OF_PATTERN_NODE", "IGNORE_NAME_PREFIX", "IGNORE_NAME_SUFFIX")
 ASSUMPTIONS = [
     "capture definitions (first occurrences) lie on the executed-exactly-once spine of the rule",
-    "register-family captures (&genreg, &indreg, &stackreg, &basereg) are outside the checked stream: known findings D5, D15",
+    "register-family captures (&genreg, &indreg, &stackreg, &basereg): the first occurrence ignores its width suffix and upper-case suffixes are not recognised (known findings D5, D15); their other clauses are checked",
     "captures under operand-level $or/$and/$and_any_order are outside the checked stream: known finding D13",
 ]
 
@@ -92,8 +92,46 @@ def whole_instruction_cases(g):
     return {"pattern": pat}, insts, "whole-instruction-%d" % k
 
 
+REGS = {"&genreg": {"64": "r%sx", "32": "e%sx", "16": "%sx", "8h": "%sh", "8l": "%sl", "letters": "abcd"},
+        "&indreg": {"64": "r%si", "32": "e%si", "16": "%si", "8l": "%sil", "letters": "sd"},
+        "&stackreg": {"64": "rsp", "32": "esp", "16": "sp", "8l": "spl", "letters": "s"},
+        "&basereg": {"64": "rbp", "32": "ebp", "16": "bp", "8l": "bpl", "letters": "b"}}
+
+
+def register_family_cases(g):
+    """one register-family name used twice (suffix on the first occurrence or not), the second instruction holding
+    the same architectural register at the requested width, or another register of the family.  On the unchanged
+    code part of these are the recorded findings D5/D15 (suppressed only where the pinned model shares the defect)."""
+    fam = g.pick(["&genreg", "&genreg", "&genreg", "&indreg", "&indreg", "&stackreg", "&basereg"])
+    t = REGS[fam]
+    widths = [w for w in t if w != "letters"]
+    base = fam + g.pick(["", "-1", "-x"])
+    w1, w2 = g.pick(widths + [None]), g.pick(widths)
+    n1 = base + ("." + w1 if w1 else "")
+    n2 = base + "." + w2
+    l1 = g.pick(t["letters"])
+    l2 = l1 if g.chance(0.4) or len(t["letters"]) == 1 else g.pick([x for x in t["letters"] if x != l1])
+
+    def reg(w, letter):
+        f = t[w or "64"]
+        return "%" + (f % letter if "%s" in f else f)
+    m1, m2 = g.pick(["mov", "add"]), g.pick(["mov", "xor"])
+    doc = {"pattern": [{m1: [n1, "r11"]}, {m2: [n2, "r11"]}]}
+    insts = [("1000", m1, [reg(w1, l1), "%r11"]), ("1003", m2, [reg(w2, l2), "%r11d"]), ("1006", "ret", [])]
+    return doc, insts, "register-family-%s" % ("same" if l1 == l2 else "other")
+
+
 def run(ctx, factor):
     rep = ctx.report
+    for _ in range(ctx.budget(40, 1500) * factor):
+        doc, insts, tag = register_family_cases(ctx.g)
+        o = patdiff.observe(ctx, doc, insts, modes=("bool", "all", "first"))
+        usable = patdiff.correspondence(ctx, o)
+        if usable:
+            patdiff.spec_verdict(ctx, o)
+        rep.case(patdiff.case_of(o), usable, tags=[tag])
+        if rep.violations and factor > 1:
+            break
     for _ in range(ctx.budget(30, 1000) * factor):
         doc, insts, tag = whole_instruction_cases(ctx.g)
         o = patdiff.observe(ctx, doc, insts, modes=("bool", "all", "first"))
